@@ -22,6 +22,9 @@ def setup(rep):
     rep.clause("dipole", "P", "dipole gains are sin(theta) and the projection of the polarization on the dipole axis")
     rep.clause("system-delegation", "P", "AntennaSystem.apply_response / receive call through to the antenna unchanged")
     rep.clause("receive-sums-components", "P", "receive appends one signal = sum of the per-polarization responses (C09 bookkeeping clause)")
+    rep.clause("bounded-geometry", "B", "native sampling on random orientations: (r, theta, phi) are the spherical coordinates of the "
+               "relative position in the antenna frame, dipole gains are sin(theta) and the projection on the axis (replayable "
+               "inputs for what the proved harnesses establish through a spy on np.dot)")
     rep.clause("butterworth-shape", "N", "DipoleAntenna.frequency_response (scipy.signal.butter / freqs) is outside the modelled library")
     rep.assume("A1, A2, A5 (np.dot, np.cross, arccos/arctan2 axioms)")
 
